@@ -190,7 +190,7 @@ class FactorGraph(UndirectedGraph):
         >>> G.get_cardinality('a')
         2
         """
-        if node:
+        if node is not None:
             for factor in self.factors:
                 for variable, cardinality in zip(factor.scope(), factor.cardinality):
                     if node == variable:
